@@ -694,9 +694,11 @@ carquet_status_t carquet_writer_close(carquet_writer_t* writer) {
         goto cleanup;
     }
 
-    /* Flush and close */
-    fflush(writer->file);
-
+    /* Flush: stdio may have buffered everything up to here, so a full disk
+     * or a failing sink only shows now */
+    if (fflush(writer->file) != 0 || ferror(writer->file)) {
+        status = CARQUET_ERROR_FILE_WRITE;
+    }
 cleanup:
     /* Free resources */
     if (writer->current_row_group) {
@@ -705,10 +707,12 @@ cleanup:
     }
 
     if (writer->owns_file && writer->file) {
-        fclose(writer->file);
+        /* A failing close loses data as well */
+        if (fclose(writer->file) != 0 && status == CARQUET_OK) {
+            status = CARQUET_ERROR_FILE_WRITE;
+        }
         writer->file = NULL;
     }
-
     /* Free column definitions */
     if (writer->columns) {
         for (int32_t i = 0; i < writer->num_columns; i++) {
@@ -716,13 +720,11 @@ cleanup:
         }
         free(writer->columns);
     }
-
     free(writer->column_values_written);
     free(writer->row_groups);
     free(writer->path);
     carquet_arena_destroy(&writer->arena);
     free(writer);
-
     return status;
 }
 
